@@ -251,6 +251,14 @@ func (e *Env) tr(x Expr) TV {
 			return TV{S: v.S, Sort: sIface, Ty: t}
 		}
 		return TV{S: vc.enc.unbox("(if-data "+v.S+")", t), Sort: vc.enc.sortOf(t), Ty: t}
+	case *ESpecScope:
+		c := e.child()
+		if n.Spec.Pkg != "" {
+			if pk := vc.prog.byPath[n.Spec.Pkg]; pk != nil {
+				c.pkg = pk.Types
+			}
+		}
+		return c.tr(n.X)
 	case *ETypeLit:
 		t, _ := e.resolveType(n.Ty)
 		if t == nil {
@@ -848,6 +856,20 @@ func (e *Env) call(n *ECall) TV {
 			e.fail("seenset() outside a map-range loop")
 		}
 		return TV{S: vc.cur(e.st, e.seenComp), Sort: vc.compSort[e.seenComp]}
+	case "runes":
+		v := arg(0)
+		t := vc.runePrefix(v.S, "(str.len "+v.S+")")
+		if !strings.Contains(v.S, "q$") {
+			vc.emit(and("(<= 0 "+t+")", "(<= "+t+" (str.len "+v.S+"))"))
+		}
+		return TV{S: t, Sort: sInt, Ty: intT}
+	case "runesPrefix":
+		return TV{S: vc.runePrefix(arg(0).S, arg(1).S), Sort: sInt, Ty: intT}
+	case "same":
+		// structural (bit-level for floats) equality
+		a, b := arg(0), arg(1)
+		a, b = e.unify(a, b)
+		return TV{S: eq(a.S, b.S), Sort: sBool, Ty: boolT}
 	case "store":
 		a, k, v := arg(0), arg(1), arg(2)
 		if v.Sort == "nil" {
